@@ -4,6 +4,7 @@ pub mod chain;
 pub mod corpus;
 pub mod history;
 pub mod io;
+pub mod lockmon;
 pub mod logsink;
 pub mod monitors;
 pub mod node;
